@@ -3,7 +3,7 @@
 use crate::common::*;
 
 #[derive(Clone, Copy, PartialEq)]
-pub enum Comments { None, Boundaries, Anywhere }
+pub enum Comments { None, Boundaries, Lists, Anywhere }
 #[derive(Clone, Copy)]
 pub struct Knobs {
     pub syn: &'static str,
@@ -47,6 +47,20 @@ impl<'a> Gen<'a> {
         if self.k.comments == Comments::Anywhere && self.rng.chance(1, 14) { s.push_str(&self.comment(false)); }
         s
     }
+    /// the separator of a list: in `Lists` (and `Anywhere`) mode comments may sit before and after the comma
+    fn comma(&mut self) -> String {
+        if !matches!(self.k.comments, Comments::Lists | Comments::Anywhere) || !self.rng.chance(1, 4) { return ", ".to_string(); }
+        let mut s = String::new();
+        if self.rng.chance(1, 2) { s.push_str(&format!(" --[[ b{} ]]", self.rng.below(100))); }
+        s.push(',');
+        match self.rng.below(3) {
+            0 => { s.push_str(&format!(" -- l{}", self.rng.below(100))); s.push_str(self.nl()); }
+            1 => s.push_str(&format!(" --[[ a{} ]] ", self.rng.below(100))),
+            _ => s.push(' '),
+        }
+        self.stats[0] += 1;
+        s
+    }
     fn name(&mut self) -> String { self.rng.pick(NAMES).to_string() }
     fn indent(&self) -> String { "\t".repeat(self.depth) }
 
@@ -82,8 +96,10 @@ impl<'a> Gen<'a> {
                 let n = self.rng.below(4);
                 let mut v = vec![];
                 for _ in 0..n { v.push(self.expr(2)); }
-                let sp = self.sp();
-                format!("({})", v.join(&format!(",{}", sp)))
+                let mut out = String::from("(");
+                for (i, e) in v.iter().enumerate() { if i > 0 { let c = self.comma(); out.push_str(&c); } out.push_str(e); }
+                out.push(')');
+                out
             }
         }
     }
@@ -140,7 +156,9 @@ impl<'a> Gen<'a> {
         let n = 1 + self.rng.below(max);
         let mut v = vec![];
         for _ in 0..n { v.push(self.expr(2)); }
-        v.join(", ")
+        let mut out = String::new();
+        for (i, e) in v.iter().enumerate() { if i > 0 { let c = self.comma(); out.push_str(&c); } out.push_str(e); }
+        out
     }
     fn stmt(&mut self) -> String {
         if self.budget > 0 { self.budget -= 1; }
@@ -222,7 +240,9 @@ pub fn nth_program(seed: u64, k: usize, mode: &str) -> (String, Knobs) {
     let nodirectives = mode.ends_with("-nodirectives");
     let knobs = Knobs {
         syn: SYN_FOR_GEN[rng.below(6)],
-        comments: if wild { [Comments::None, Comments::Boundaries, Comments::Anywhere, Comments::Anywhere][rng.below(4)] } else { [Comments::None, Comments::Boundaries][rng.below(2)] },
+        comments: if wild { [Comments::None, Comments::Boundaries, Comments::Anywhere, Comments::Anywhere][rng.below(4)] }
+                  else if mode.starts_with("lists") { Comments::Lists }
+                  else { [Comments::None, Comments::Boundaries][rng.below(2)] },
         crlf: rng.chance(1, 4),
         wild_ws: wild && rng.chance(2, 3),
         directives: rng.chance(1, 3) && !nodirectives,
